@@ -544,15 +544,21 @@ def check(ctx):
                  'stay applied although the error says they are ignored' % t, detail=t)
     mut = [st for t, v, st in P.stores_in(pa) if isinstance(t, ast.Subscript) and P.src(t.value) != 'parsed_annotations' and 'annotations' in P.src(t.value)]
     r7.check(not mut, 'only the working copy is mutated', rel, pa.lineno, 'mutation of %s' % [P.src(s) for s in mut])
-    # call sites: `.annotations = X.annotations` only under X.success
-    for fn in (f, py.func('annotationparser', 'GtkDocCommentBlockParser._parse_fields')):
-        for t, v, st in P.stores_in(fn):
-            if isinstance(t, ast.Attribute) and t.attr == 'annotations' and isinstance(v, ast.Attribute) and v.attr == 'annotations' \
-                    and isinstance(v.value, ast.Name):
-                rv = v.value.id
-                gs = [g.text() for g in P.guards(st) if g.kind in ('if', 'early')]
-                r7.check(any(g == '%s.success' % rv or g.startswith('%s.success and' % rv) for g in gs), 'applied only on success: %s' % P.src(st), rel, st.lineno,
-                         'parse result applied without checking .success: guards=%s' % gs)
+    # call sites: `.annotations = <parse result>.annotations` only when that result's .success holds (gated summaries: the test may be
+    # hoisted into a flag, combined with others or expressed by an early exit)
+    n_apply = 0
+    PF_S = gsa.summarise(ctx, 'annotationparser', 'GtkDocCommentBlockParser._parse_fields', inline_only=())
+    for S_ in (PCB, PF_S):
+        for e in gsa.find(S_, 'store', r'\.annotations$'):
+            mm_ = re.match(r'^(self\._parse_(?:annotations|fields)\(.*\))\.annotations$', e.value)
+            if not mm_:
+                continue
+            n_apply += 1
+            succ = [a_ for a_ in gsa.atoms(e.cond) if a_ == mm_.group(1) + '.success']
+            r7.check(bool(succ) and not gsa.can_hold(e.cond, dict((a_, False) for a_ in succ)), 'applied only on success: %s = ...annotations' % e.target, rel, e.line,
+                     'parse result applied without checking .success (stored when %s)' % e.when()[-200:])
+    if n_apply < 3:
+        raise AnalysisError('stores of parsed annotations not recognised (%d)' % n_apply)
     pf = py.func('annotationparser', 'GtkDocCommentBlockParser._parse_fields')
     pfr = [n for n in P.walk_no_nested(pf) if isinstance(n, ast.Return)]
     r7.check(len(pfr) >= 1 and all(isinstance(n.value, ast.Call) and P.call_name(n.value) == '_ParseFieldsResult' for n in pfr), '_parse_fields returns result objects',
